@@ -1,6 +1,6 @@
 (* PV.C17.ProofsFinal — the statements of Properties.v, proved from the lemma files. *)
 From Coq Require Import List Bool PArith Arith Permutation.
-From PV Require Import Base.PyData C17.Model C17.ProofsSched C17.ProofsDask C17.ProofsGraph C17.ProofsBuilder C17.Proofs C17.ProofsPrepare C17.ProofsDeclared C17.ProofsOptimize C17.ProofsQueries.
+From PV Require Import Base.PyData C17.Model C17.ProofsSched C17.ProofsDask C17.ProofsGraph C17.ProofsBuilder C17.Proofs C17.ProofsPrepare C17.ProofsDeclared C17.ProofsOptimize C17.ProofsQueries C17.ProofsFuse.
 Import ListNotations.
 
 Lemma topo_eval_is_sequential_evaluation_stmt :
@@ -258,4 +258,41 @@ Proof.
   intros g ctx next B U. pose proof (built_wf g B) as W.
   destruct (call_prepare_spec g ctx next W U) as [N [S P]].
   split; [exact N|]. split; [intros t Ht; apply call_image_fields; exact Ht|]. split; [exact S | exact P].
+Qed.
+
+(* ---- dask.optimization.fuse: the rewrites it performs ---------------------------------------------------- *)
+Lemma inline_preserves_stmt :
+  forall (apply : positive -> list sval -> sval) (d : dsk) (c : positive),
+    NoDup (dkeys d) -> length (dask_sched d) = length d -> fuse_step_ok d (FInline c) = true ->
+    NoDup (dkeys (fuse_step d (FInline c))) /\
+    length (dask_sched (fuse_step d (FInline c))) = length (fuse_step d (FInline c)) /\
+    forall r, r <> c -> dask_get apply (fuse_step d (FInline c)) r = dask_get apply d r.
+Proof. intros apply d c. apply inline_preserves_value. Qed.
+
+Lemma alias_preserves_stmt :
+  forall (apply : positive -> list sval -> sval) (d : dsk) (r a : positive),
+    NoDup (dkeys d) -> length (dask_sched d) = length d -> fuse_step_ok d (FAlias r a) = true ->
+    NoDup (dkeys (fuse_step d (FAlias r a))) /\
+    length (dask_sched (fuse_step d (FAlias r a))) = length (fuse_step d (FAlias r a)) /\
+    forall q, q <> a -> dask_get apply (fuse_step d (FAlias r a)) q = dask_get apply d q.
+Proof. intros apply d r a. apply alias_preserves_value. Qed.
+
+Lemma fuse_steps_preserve_stmt :
+  forall (apply : positive -> list sval -> sval) (r : positive) (steps : list fstep) (d dn : dsk),
+    NoDup (dkeys d) -> length (dask_sched d) = length d ->
+    avoids r steps = true -> fuse_steps d steps = (dn, true) ->
+    NoDup (dkeys dn) /\ length (dask_sched dn) = length dn /\ dask_get apply dn r = dask_get apply d r.
+Proof. exact fuse_steps_preserve_value. Qed.
+
+Lemma inline_calls_per_key_stmt :
+  forall (apply : positive -> list sval -> sval) (d : dsk) (c : positive) (vc : sval),
+    dlookup d c = Some vc -> (forall k v, dlookup d k = Some v -> clean (dkeys d) v = true) ->
+    ~ In c (arg_deps (dkeys d) vc) ->
+    forall T, dvalid apply d T ->
+    exists T', dvalid apply (fuse_step d (FInline c)) T' /\ done positive dval T' = remc c (done positive dval T) /\
+      forall k, In k (done positive dval T') ->
+        fst (dget T' k) = fst (dget T k) /\
+        Permutation (snd (dget T' k)) (snd (dget T k) ++ rep (cnt c (dask_deps d k)) (snd (dget T c))).
+Proof.
+  intros apply d c vc L Hc Hs T V. rewrite (fuse_step_inline d c vc L). apply inline_trace; assumption.
 Qed.
